@@ -1,0 +1,97 @@
+package internal
+
+import (
+	"sync"
+	"testing"
+	"time"
+
+	"github.com/stretchr/testify/require"
+)
+
+func waitTimeout(t *testing.T, wg *sync.WaitGroup, msg string) {
+	t.Helper()
+	done := make(chan struct{})
+	go func() {
+		wg.Wait()
+		close(done)
+	}()
+	select {
+	case <-done:
+	case <-time.After(10 * time.Second):
+		t.Fatal(msg)
+	}
+}
+
+// Two Wait markers end up in the same write batch, both callers must be woken up.
+func TestStore_WaitConcurrentSameBatch(t *testing.T) {
+	store := NewStore[int, int](&StoreOptions[int, int]{MaxSize: 1000})
+	defer store.Close()
+
+	// block the maintenance goroutine: it takes the NEW item
+	// from write channel and then blocks on policy mutex.
+	store.policyMu.Lock()
+	store.Set(1, 1, 1, 0)
+	require.Eventually(t, func() bool {
+		return len(store.writeChan) == 0
+	}, 5*time.Second, time.Millisecond)
+	time.Sleep(20 * time.Millisecond)
+
+	var wg sync.WaitGroup
+	for i := 0; i < 2; i++ {
+		wg.Add(1)
+		go func() {
+			defer wg.Done()
+			store.Wait()
+		}()
+	}
+	// both markers are queued, maintenance will read them in one batch
+	require.Eventually(t, func() bool {
+		return len(store.writeChan) == 2
+	}, 5*time.Second, time.Millisecond)
+	store.policyMu.Unlock()
+
+	waitTimeout(t, &wg, "concurrent Wait not returned")
+}
+
+// Every Wait caller returns, and when it returns all writes
+// done by the caller before Wait are applied to policy.
+func TestStore_WaitConcurrent(t *testing.T) {
+	store := NewStore[int, int](&StoreOptions[int, int]{MaxSize: 100000})
+	defer store.Close()
+
+	applied := func(key int) bool {
+		_, index := store.index(key)
+		shard := store.shards[index]
+		tk := shard.mu.RLock()
+		entry, ok := shard.get(key)
+		shard.mu.RUnlock(tk)
+		if !ok {
+			return false
+		}
+		store.policyMu.Lock()
+		defer store.policyMu.Unlock()
+		return entry.meta.prev != nil
+	}
+
+	var wg sync.WaitGroup
+	var mu sync.Mutex
+	missing := []int{}
+	for i := 0; i < 8; i++ {
+		wg.Add(1)
+		go func(i int) {
+			defer wg.Done()
+			for j := 0; j < 200; j++ {
+				key := i*1000 + j
+				store.Set(key, key, 1, 0)
+				store.Wait()
+				if !applied(key) {
+					mu.Lock()
+					missing = append(missing, key)
+					mu.Unlock()
+				}
+			}
+		}(i)
+	}
+	waitTimeout(t, &wg, "concurrent Wait not returned")
+	require.Empty(t, missing)
+}
